@@ -168,7 +168,23 @@ func c05ShapesRule(c *Ctx, a *absVariant, ruleID string) {
 		}
 		return true
 	})
-	r.Check(strings.Join(seq, ",") == "discard,install", ruleID, "T.restoreState:discard-then-install", vn, a.V.Where(rs.Pos()), "old dict discarded, then the clone installed", "body performs ["+strings.Join(seq, ",")+"]")
+	why := ""
+	if strings.Join(seq, ",") != "discard,install" {
+		why = "body performs [" + strings.Join(seq, ",") + "]"
+	}
+	// ... on every path: a dict that was discarded is in the shared pool and must not stay installed, and the snapshot
+	// must be installed whatever it contains
+	for _, p := range enumPaths(rs.Body) {
+		if eg := extraGuards(p, "p.debug"); len(eg) > 0 && why == "" {
+			why = "the exchange depends on `" + strings.Join(eg, "`, `") + "`"
+		}
+		iD := p.index("call", "p.cur.state.Discard()", 0)
+		iI := p.index("assign", "p.cur.state="+param, 0)
+		if (iD < 0 || iI < 0 || iI < iD) && why == "" {
+			why = "on the path [" + strings.Join(p.guards(), " ") + "] the old dict is discarded (returned to the shared pool) without the snapshot being installed, or the snapshot is not installed: the parser keeps using a dict another parse can take from the pool"
+		}
+	}
+	r.Check(why == "", ruleID, "T.restoreState:discard-then-install", vn, a.V.Where(rs.Pos()), "old dict discarded, then the clone installed, on every path", why)
 	dd := a.V.Func("storeDict", "Discard")
 	if dd == nil {
 		r.Fatal("variant %s: storeDict.Discard not found", vn)
